@@ -327,6 +327,15 @@ func (pd *pooledEntry) release(clean bool) {
 func c20RunHistOn(d *DB, m *c20Model, clkp *time.Time, hist []int) (key string, msg string, prune bool) {
 	handles := []*Upload{}
 	issued := map[string]bool{}
+	// Whatever way this history ends (verdict, pruned, violation): uploads still open are ended here, so that
+	// their transactions give their connections (and file descriptors) back before the database is released.
+	defer func() {
+		for i, u := range m.Ups {
+			if u.State == "open" && i < len(handles) {
+				handles[i].Abort()
+			}
+		}
+	}()
 	for i, op := range hist {
 		last := i == len(hist)-1
 		switch {
@@ -458,11 +467,6 @@ func c20RunHistOn(d *DB, m *c20Model, clkp *time.Time, hist []int) (key string, 
 		b.WriteByte('\n')
 	}
 	b.WriteString(dumpTables(d))
-	for i, u := range m.Ups {
-		if u.State == "open" {
-			handles[i].Abort()
-		}
-	}
 	return b.String(), "", false
 }
 
